@@ -66,6 +66,14 @@ def run(chk):
             lines.append('o_tfm\t%d %d %d %d %d %d %d %d' % (i, seed + 3, rng.choice([2, 3, 4]), rng.choice([0, 12, 15, 20, 30, 41]),
                                                                rng.choice([0, 0, 5, 16]), rng.choice([0, 0, 7]), rng.choice([0, 0, 9, 24]),
                                                                rng.randint(0, 1)))
+    # grids with ONE point along an axis (all reflections in a plane; length-1 transforms inside the FFT), P 1 and P 1 21 1
+    for (row_, g) in [(0, (1, 6, 8)), (0, (6, 1, 8)), (0, (1, 1, 8)), (0, (1, 6, 7)), (3, (1, 6, 8)), (0, (6, 8, 1))]:
+        for half in (0, 1):
+            for zyx in (0, 1):
+                if half and g[2] % 2:
+                    continue      # odd size along l through the half-l grid is the recorded finding
+                lines.append('o_map\t%d %d %d %d %d %d %d 2' % (row_, rng.randint(1, 10 ** 6), g[0], g[1], g[2], half, zyx))
+        lines.append('o_sf\t%d %d %d %d %d 0 0 2' % (row_, rng.randint(1, 10 ** 6), g[0], g[1], g[2]))
     # the recorded witnesses of finding C14-half-l-odd (half-l grid built for an odd size along l), both axis orders
     lines += ['o_map\t0 849373 5 7 9 1 1 2', 'o_map\t0 849373 5 7 9 1 0 2', 'o_variants\t0 849375 5 7 9']
     res = vlib.correspond(chk, h, d, lines, timeout=3000)
